@@ -1,4 +1,6 @@
-(* C18 — lemmas about Model/SaveFS.v. *)
+(* C18 — lemmas about Model/SaveFS.v.  Everything here is about save_fixed, the model of the code
+   (check and render everything, then write).  The pre-fix order save_old needs no lemmas: its defects
+   are exhibited by evaluation in Properties/C18.v. *)
 From JV Require Import Lib.Base Model.SaveFS Spec.SaveFSSpec.
 From Coq Require Import Permutation.
 
@@ -23,6 +25,38 @@ Qed.
 Lemma is_file_not_dir f n : is_file f n = true -> is_dir f n = false.
 Proof. unfold is_file, is_dir. destruct (lookup f n) as [[c|]|]; auto; discriminate. Qed.
 
+Lemma lookup_none_not_in f n : ~ In n (map fst f) -> lookup f n = None.
+Proof.
+  induction f as [|[m x] f IH]; simpl; intro H; auto.
+  destruct (str_eqb m n) eqn:E.
+  - apply str_eqb_spec in E. exfalso. apply H. left. exact E.
+  - apply IH. intro Hin. apply H. right. exact Hin.
+Qed.
+
+Lemma lookup_in_names f n : In n (map fst f) -> lookup f n <> None.
+Proof.
+  induction f as [|[m x] f IH]; simpl; intro H; [destruct H|].
+  destruct (str_eqb m n) eqn:E; [discriminate|].
+  destruct H as [H|H]; [subst m; rewrite str_eqb_refl in E; discriminate | auto].
+Qed.
+
+(* ---- flush: open + write everything that is pending ----------------------------------------- *)
+Lemma flush_other p : forall f m, ~ In m (map fst p) -> lookup (flush f p) m = lookup f m.
+Proof.
+  induction p as [|[n c] p IH]; intros f m H; simpl; auto.
+  simpl in H. rewrite IH by (intro; apply H; right; assumption).
+  rewrite !lookup_write_other; auto; intro; subst; apply H; left; reflexivity.
+Qed.
+
+Lemma flush_in p : forall f n c, NoDup (map fst p) -> In (n, c) p -> lookup (flush f p) n = Some (File c).
+Proof.
+  induction p as [|[m d] p IH]; intros f n c ND Hin; [destruct Hin|].
+  simpl in ND. inversion ND as [|? ? Hnotin ND']; subst. simpl.
+  destruct Hin as [Heq|Hin].
+  - inversion Heq; subst. rewrite flush_other by exact Hnotin. apply lookup_write_same.
+  - apply IH; auto.
+Qed.
+
 (* ---- exec --------------------------------------------------------------------------------- *)
 Lemma exec_app i a b t :
   exec i (a ++ b) t =
@@ -35,35 +69,14 @@ Proof.
   destruct (exec1 i s t); auto.
 Qed.
 
-Definition pre (i : input) : list step :=
-  [SPathFc (i_main i); SCheckOverwrite (i_main i); SValidate].
-Definition post (i : input) : list step :=
-  [SOpenW (i_main i); SDumpCall (i_mainr i); SWrite (i_main i)].
-
-Lemma steps_multi i :
-  i_multifile i = true -> steps i = pre i ++ (flat_map sub_steps (order (i_subs i)) ++ post i).
-Proof. intro H. unfold steps. rewrite H. reflexivity. Qed.
-
 Ltac break_in H :=
   repeat match type of H with
          | context [if ?c then _ else _] => destruct c eqn:?
          | context [match ?x with _ => _ end] => destruct x eqn:?
          end.
 
-Ltac crunch E :=
-  simpl in E;
-  repeat (match type of E with
-          | context [if ?c then _ else _] => destruct c eqn:?
-          | context [match ?x with _ => _ end] => is_var x; destruct x
-          | context [match ?x with _ => _ end] =>
-              match type of x with
-              | outcome => destruct x eqn:?
-              | option content => destruct x eqn:?
-              end
-          | context [match lookup ?f ?n with _ => _ end] => destruct (lookup f n) as [[?|]|] eqn:?
-          end; try discriminate; simpl in E).
-
-(* one step: either it fails, or it leaves the file system alone, or it (re)writes one name *)
+(* one step: either it fails, or it leaves the file system alone, or it (re)writes one name, or it
+   is the final flush *)
 Lemma exec1_shape i s t t1 :
   exec1 i s t = Ok t1 ->
   st_fs t1 = st_fs t
@@ -74,34 +87,6 @@ Proof.
     inversion E; subst; simpl; auto.
   - right; left; eauto.
   - right; left; eauto.
-Qed.
-
-Definition step_within (P : name -> Prop) (s : step) : Prop :=
-  match s with
-  | SOpenW n | SWrite n => P n
-  | SFlush => False
-  | _ => True
-  end.
-
-Lemma step_within_mono (P Q : name -> Prop) s :
-  (forall n, P n -> Q n) -> step_within P s -> step_within Q s.
-Proof. destruct s; simpl; auto. Qed.
-
-(* frame: names no step may write keep their entry, whether the run fails or not *)
-Lemma exec_frame i P ss :
-  Forall (step_within P) ss ->
-  forall t t' e m, exec i ss t = (t', e) -> ~ P m -> lookup (st_fs t') m = lookup (st_fs t) m.
-Proof.
-  induction 1 as [|s ss Hs _ IH]; intros t t' e m E Hm; simpl in E.
-  - inversion E; subst; auto.
-  - destruct (exec1 i s t) as [t1|e1] eqn:E1.
-    + rewrite (IH _ _ _ _ E Hm).
-      destruct (exec1_shape _ _ _ _ E1) as [H|[(n & c & Hn & H)|H]].
-      * rewrite H; auto.
-      * rewrite H. apply lookup_write_other. intro; subst m.
-        destruct Hn as [Hn|Hn]; subst s; simpl in Hs; contradiction.
-      * subst s. simpl in Hs. contradiction.
-    + inversion E; subst; auto.
 Qed.
 
 Definition nowrite (s : step) : bool :=
@@ -120,9 +105,6 @@ Proof.
       * subst s; discriminate.
     + inversion E; auto.
 Qed.
-
-Lemma pre_fs i t0 o : exec i (pre i) (init i) = (t0, o) -> st_fs t0 = i_fs i.
-Proof. intro E. apply (exec_nowrite i (pre i) eq_refl _ _ _ E). Qed.
 
 (* ---- the order is a permutation ------------------------------------------------------------ *)
 Lemma insert_desc_perm x l : Permutation (insert_desc x l) (x :: l).
@@ -152,209 +134,18 @@ Proof.
   unfold order. eapply perm_trans; [apply sort_perm | apply partition_perm].
 Qed.
 
-Lemma nodup_str_NoDup l : nodup_str l = true -> NoDup l.
+Lemma nodup_str_NoDup l : nodup_str l = true <-> NoDup l.
 Proof.
-  induction l as [|x l IH]; simpl; intro H; [constructor|].
-  apply andb_true_iff in H. destruct H as [H1 H2]. constructor; auto.
-  intro Hin. apply mem_str_In in Hin. rewrite Hin in H1. discriminate.
+  induction l as [|x l IH]; simpl; split; intro H; auto; try constructor.
+  - apply andb_true_iff in H. destruct H as [H1 H2].
+    intro Hin. apply mem_str_In in Hin. rewrite Hin in H1. discriminate.
+  - apply andb_true_iff in H. destruct H as [H1 H2]. apply IH. exact H2.
+  - inversion H as [|? ? Hn Hd]; subst. apply andb_true_iff. split.
+    + destruct (mem_str x l) eqn:E; auto. apply mem_str_In in E. contradiction.
+    + apply IH. exact Hd.
 Qed.
 
-(* ---- no silent overwrite -------------------------------------------------------------------- *)
-(* every regular file of f0 is still there with the same content *)
-Definition keeps (f0 f : fs) : Prop :=
-  forall n c, lookup f0 n = Some (File c) -> lookup f n = Some (File c).
-
-(* a step list is well-guarded when every open/write of a name comes after a check_overwrite of
-   that name *)
-Fixpoint wf (ck : list name) (ss : list step) : Prop :=
-  match ss with
-  | [] => True
-  | SCheckOverwrite n :: r => wf (n :: ck) r
-  | SOpenW n :: r => In n ck /\ wf ck r
-  | SWrite n :: r => In n ck /\ wf ck r
-  | SFlush :: r => False
-  | _ :: r => wf ck r
-  end.
-
-Lemma wf_mono ss : forall ck ck', (forall x, In x ck -> In x ck') -> wf ck ss -> wf ck' ss.
-Proof.
-  induction ss as [|s ss IH]; intros ck ck' Hsub H; simpl in *; auto.
-  destruct s; simpl in *; try (eapply IH; eauto; fail); auto.
-  - eapply IH; [|exact H]. intros x [Hx|Hx]; [left; auto | right; auto].
-  - destruct H; split; auto. eapply IH; eauto.
-  - destruct H; split; auto. eapply IH; eauto.
-Qed.
-
-Lemma wf_app a : forall b ck, wf ck a -> wf ck b -> wf ck (a ++ b).
-Proof.
-  induction a as [|s a IH]; simpl; intros b ck Ha Hb; auto.
-  destruct s; simpl in *; try (apply IH; auto; fail); auto.
-  - apply IH; auto. eapply wf_mono; [|exact Hb]. intros; right; auto.
-  - destruct Ha; split; auto.
-  - destruct Ha; split; auto.
-Qed.
-
-Lemma wf_sub x ck : wf ck (sub_steps x).
-Proof. unfold sub_steps. destruct (s_src x); simpl; intuition. Qed.
-
-Lemma wf_subs l ck : wf ck (flat_map sub_steps l).
-Proof. induction l as [|x l IH]; simpl; auto. apply wf_app; auto using wf_sub. Qed.
-
-Lemma wf_steps i : wf [] (steps i).
-Proof.
-  unfold steps. destruct (i_multifile i); simpl.
-  - apply wf_app; [apply wf_subs | simpl; intuition].
-  - intuition.
-Qed.
-
-Lemma keeps_write f0 f n c : keeps f0 f -> is_file f0 n = false -> keeps f0 (write f n c).
-Proof.
-  intros K Hn m d Hm. rewrite lookup_write_other; auto.
-  intro; subst m. unfold is_file in Hn. rewrite Hm in Hn. discriminate.
-Qed.
-
-Lemma exec_keeps i f0 :
-  i_overwrite i = false ->
-  forall ss ck t t' e,
-    wf ck ss -> (forall n, In n ck -> is_file f0 n = false) -> keeps f0 (st_fs t) ->
-    exec i ss t = (t', e) -> keeps f0 (st_fs t').
-Proof.
-  intro Hov. induction ss as [|s ss IH]; intros ck t t' e W C K E; simpl in E.
-  - inversion E; subst; auto.
-  - destruct (exec1 i s t) as [t1|e1] eqn:E1; [|inversion E; subst; auto].
-    destruct s; simpl in W;
-      try (assert (st_fs t1 = st_fs t)
-             by (unfold exec1 in E1; break_in E1; try discriminate; inversion E1; subst; reflexivity);
-           eapply IH; [exact W | exact C | | exact E]; rewrite H; exact K).
-    + (* SCheckOverwrite *)
-      unfold exec1 in E1. rewrite Hov in E1. simpl in E1.
-      destruct (is_file (st_fs t) n) eqn:F; [discriminate|]. inversion E1; subst t1.
-      eapply IH; [exact W | | exact K | exact E].
-      intros m [Hm|Hm]; auto. subst m.
-      unfold is_file. destruct (lookup f0 n) as [[c|]|] eqn:L; auto.
-      apply K in L. unfold is_file in F. rewrite L in F. discriminate.
-    + (* SOpenW *)
-      destruct W as [Hin W]. unfold exec1 in E1. inversion E1; subst t1.
-      eapply IH; [exact W | exact C | | exact E]. simpl. apply keeps_write; auto.
-    + (* SWrite *)
-      destruct W as [Hin W]. unfold exec1 in E1. inversion E1; subst t1.
-      eapply IH; [exact W | exact C | | exact E]. simpl. apply keeps_write; auto.
-    + contradiction.
-Qed.
-
-Lemma no_silent_overwrite_lemma i :
-  i_overwrite i = false ->
-  forall n c, lookup (i_fs i) n = Some (File c) -> lookup (fst (save i)) n = Some (File c).
-Proof.
-  intros Hov n c L. unfold save. simpl.
-  destruct (exec i (steps i) (init i)) as [t' e] eqn:E. simpl.
-  eapply (exec_keeps i (i_fs i) Hov (steps i) [] (init i) t' e); eauto.
-  - apply wf_steps.
-  - intros m [].
-  - intros m d Hm. exact Hm.
-Qed.
-
-Lemma existing_target_refused_lemma i :
-  i_overwrite i = false -> i_dir_ok i = true -> is_file (i_fs i) (i_main i) = true ->
-  save i = (i_fs i, Some ERefuse).
-Proof.
-  intros Hov Hd Hf. pose proof (is_file_not_dir _ _ Hf) as Hnd.
-  unfold save, steps. destruct (i_multifile i); simpl; rewrite Hd, Hnd; simpl; rewrite Hov, Hf; reflexivity.
-Qed.
-
-(* a sub-file that exists makes a save without overwrite fail, however far it gets *)
-Lemma subs_refuse i f0 x rest :
-  i_overwrite i = false -> is_file f0 (s_name x) = true ->
-  forall l t, In x l -> keeps f0 (st_fs t) ->
-    exists e, snd (exec i (flat_map sub_steps l ++ rest) t) = Some e.
-Proof.
-  intros Hov Hf. induction l as [|a l IH]; intros t Hin K; [destruct Hin|].
-  simpl. rewrite <- app_assoc. rewrite exec_app.
-  destruct (exec i (sub_steps a) t) as [t1 [e1|]] eqn:E1; [eexists; reflexivity|].
-  destruct Hin as [Ha|Hin].
-  - subst a. exfalso.
-    assert (F : is_file (st_fs t) (s_name x) = true).
-    { unfold is_file in *. destruct (lookup f0 (s_name x)) as [[c|]|] eqn:L; try discriminate.
-      rewrite (K _ _ L). reflexivity. }
-    unfold sub_steps in E1.
-    destruct (s_src x); simpl in E1;
-      (destruct (negb (i_dir_ok i) || is_dir (st_fs t) (s_name x)); [discriminate|]);
-      simpl in E1; rewrite Hov, F in E1; simpl in E1; discriminate.
-  - apply IH; auto.
-    eapply (exec_keeps i f0 Hov (sub_steps a) [] t t1 None); eauto.
-    + apply wf_sub.
-    + intros m [].
-Qed.
-
-Lemma existing_subfile_refused_lemma i x :
-  i_multifile i = true -> i_overwrite i = false ->
-  In x (i_subs i) -> is_file (i_fs i) (s_name x) = true ->
-  exists e, snd (save i) = Some e.
-Proof.
-  intros Hm Hov Hin Hf. unfold save. cbn [snd]. rewrite (steps_multi i Hm), exec_app.
-  destruct (exec i (pre i) (init i)) as [t0 [e0|]] eqn:E0; [eexists; reflexivity|].
-  pose proof (pre_fs _ _ _ E0) as F0.
-  apply (subs_refuse i (i_fs i) x); auto.
-  - apply (Permutation_in x (Permutation_sym (order_perm (i_subs i)))). exact Hin.
-  - rewrite F0. intros m d Hmd. exact Hmd.
-Qed.
-
-(* ---- all-or-nothing, as far as it holds ------------------------------------------------------ *)
-Lemma target_fail_save i :
-  target_check_fails i = true -> exists e, save i = (i_fs i, Some e).
-Proof.
-  unfold target_check_fails, save, steps. intro H.
-  destruct (i_dir_ok i) eqn:D; simpl in H.
-  - destruct (is_dir (i_fs i) (i_main i)) eqn:A; simpl in H.
-    + destruct (i_multifile i); simpl; rewrite D, A; eexists; reflexivity.
-    + destruct (i_overwrite i) eqn:W; simpl in H; [discriminate|].
-      destruct (i_multifile i); simpl; rewrite D, A; simpl; rewrite W, H; eexists; reflexivity.
-  - destruct (i_multifile i); simpl; rewrite D; eexists; reflexivity.
-Qed.
-
-Lemma validate_fail_save i :
-  target_check_fails i = false -> i_multifile i = true -> validate_fails i = true ->
-  save i = (i_fs i, Some EInvalid).
-Proof.
-  unfold target_check_fails, validate_fails, save, steps. intros T M V. rewrite M.
-  destruct (i_dir_ok i) eqn:D; simpl in T; [|discriminate].
-  destruct (is_dir (i_fs i) (i_main i)) eqn:A; simpl in T; [discriminate|].
-  destruct (i_skipval i) eqn:SV; simpl in V; [discriminate|].
-  destruct (i_valid i) eqn:VA; simpl in V; [discriminate|].
-  simpl. rewrite D, A. simpl.
-  destruct (i_overwrite i) eqn:W; simpl in T |- *.
-  - rewrite SV, VA. reflexivity.
-  - rewrite T. simpl. rewrite SV, VA. reflexivity.
-Qed.
-
-Lemma failed_true i f e : save i = (f, Some e) -> failed i = true.
-Proof. unfold failed. intro H. rewrite H. reflexivity. Qed.
-
-Lemma failed_false i f : save i = (f, None) -> failed i = false.
-Proof. unfold failed. intro H. rewrite H. reflexivity. Qed.
-
-Lemma failed_save_changes_nothing_lemma i f' e :
-  classify i = 0%N -> save i = (f', Some e) -> f' = i_fs i.
-Proof.
-  unfold classify. intros C E. pose proof (failed_true _ _ _ E) as F.
-  destruct (target_check_fails i) eqn:T.
-  - destruct (target_fail_save i T) as [e' H]. congruence.
-  - rewrite F in C. destruct (i_multifile i) eqn:M; simpl in C; [|discriminate].
-    destruct (validate_fails i) eqn:V; [|discriminate].
-    rewrite (validate_fail_save i T M V) in E. congruence.
-Qed.
-
-(* the precise form: a failure that comes before the first open/write leaves nothing behind *)
-Lemma failure_before_first_open_lemma i pre post e :
-  steps i = pre ++ post -> forallb nowrite pre = true ->
-  snd (exec i pre (init i)) = Some e -> save i = (i_fs i, Some e).
-Proof.
-  intros S N E. unfold save. rewrite S, exec_app.
-  destruct (exec i pre (init i)) as [t1 o] eqn:E1. simpl in E. subst o. simpl.
-  rewrite (exec_nowrite i pre N _ _ _ E1). reflexivity.
-Qed.
-
-(* ---- the repaired order is all-or-nothing for every failure ---------------------------------- *)
+(* ---- the check phase writes nothing ---------------------------------------------------------- *)
 Lemma nowrite_subs_fixed l : forallb nowrite (flat_map sub_steps_fixed l) = true.
 Proof.
   induction l as [|x l IH]; simpl; auto. rewrite forallb_app, IH, andb_true_r.
@@ -367,123 +158,375 @@ Proof.
   rewrite forallb_app, nowrite_subs_fixed. reflexivity.
 Qed.
 
-Lemma fixed_all_or_nothing_lemma i f' e : save_fixed i = (f', Some e) -> f' = i_fs i.
+(* save_fixed is: run the check phase; if it fails nothing has happened, else flush what is pending *)
+Lemma save_fixed_unfold i :
+  save_fixed i =
+  match exec i (check_phase i) (init i) with
+  | (_, Some e) => (i_fs i, Some e)
+  | (t, None) => (flush (i_fs i) (st_pending t), None)
+  end.
 Proof.
   unfold save_fixed, steps_fixed. rewrite exec_app.
-  destruct (exec i (check_phase i) (init i)) as [t1 [e1|]] eqn:E; simpl; intro H; inversion H; subst.
-  apply (exec_nowrite i _ (check_phase_nowrite i) _ _ _ E).
+  destruct (exec i (check_phase i) (init i)) as [t1 [e1|]] eqn:E; simpl;
+    pose proof (exec_nowrite i _ (check_phase_nowrite i) _ _ _ E) as F; simpl in F; rewrite F; reflexivity.
 Qed.
 
-(* ---- a successful save can be read back ------------------------------------------------------ *)
-Lemma holds_lookup f g n c : lookup f n = lookup g n -> holds f n c = holds g n c.
-Proof. unfold holds. intro H. rewrite H. reflexivity. Qed.
-
-Lemma holds_write f n c : holds (write f n c) n (Some c) = true.
-Proof. unfold holds. rewrite lookup_write_same. apply N.eqb_refl. Qed.
-
-Lemma sub_block_ok i f0 x t t' :
-  is_here x = false -> exec i (sub_steps x) t = (t', None) ->
-  holds (st_fs t') (s_name x) (expected f0 x) = true.
+Lemma fixed_all_or_nothing_lemma i f' e : save_fixed i = (f', Some e) -> f' = i_fs i.
 Proof.
-  unfold is_here, sub_steps, expected. intros H E.
-  destruct (s_src x) as [o|c| |c]; try discriminate; crunch E;
-    inversion E; subst; simpl; apply holds_write.
+  rewrite save_fixed_unfold.
+  destruct (exec i (check_phase i) (init i)) as [t1 [e1|]]; intro H; inversion H; reflexivity.
 Qed.
 
-Lemma sub_block_within x : Forall (step_within (fun n => n = s_name x)) (sub_steps x).
-Proof. unfold sub_steps. destruct (s_src x); repeat constructor. Qed.
+(* ---- what a successful check phase has established ------------------------------------------- *)
+(* name n passed Path(n,"fc") and check_overwrite on the directory f0 *)
+Definition checked (i : input) (f0 : fs) (n : name) : Prop :=
+  i_dir_ok i = true /\ is_dir f0 n = false /\ (i_overwrite i = false -> is_file f0 n = false).
 
-Lemma subs_within l : Forall (step_within (fun n => In n (map s_name l))) (flat_map sub_steps l).
+Definition text_of (f0 : fs) (x : sub) : content :=
+  match expected f0 x with Some c => c | None => empty_text end.
+
+Definition plan (f0 : fs) (l : list sub) : list (name * content) :=
+  map (fun x => (s_name x, text_of f0 x)) l.
+
+Lemma plan_names f0 l : map fst (plan f0 l) = map s_name l.
+Proof. unfold plan. rewrite map_map. reflexivity. Qed.
+
+Definition sub_good (i : input) (f0 : fs) (x : sub) : Prop :=
+  expected f0 x <> None /\ checked i f0 (s_name x) /\ (i_alias i = false -> s_name x <> i_main i).
+
+Lemma checked_of i f n :
+  (negb (i_dir_ok i) || is_dir f n) = false -> (negb (i_overwrite i) && is_file f n) = false ->
+  checked i f n.
 Proof.
-  induction l as [|x l IH]; simpl; [constructor|]. apply Forall_app. split.
-  - eapply Forall_impl; [|apply sub_block_within]. intros s. apply step_within_mono. intros n ->. left; auto.
-  - eapply Forall_impl; [|exact IH]. intros s. apply step_within_mono. intros n Hn. right; auto.
+  intros H1 H2. apply orb_false_iff in H1. destruct H1 as [H1 H1'].
+  apply negb_false_iff in H1. repeat split; auto.
+  intro Ho. rewrite Ho in H2. exact H2.
 Qed.
 
-Lemma subs_ok i f0 :
-  forall l t t', NoDup (map s_name l) -> existsb is_here l = false ->
-    exec i (flat_map sub_steps l) t = (t', None) ->
-    forall x, In x l -> holds (st_fs t') (s_name x) (expected f0 x) = true.
+Lemma stash_of (a : bool) n m (p : list (name * content)) :
+  ((negb a && str_eqb n m) || mem_str n (map fst p)) = false -> (a = false -> n <> m) /\ ~ In n (map fst p).
 Proof.
-  induction l as [|a l IH]; intros t t' ND NH E x Hin; [destruct Hin|].
-  simpl in E. rewrite exec_app in E.
-  destruct (exec i (sub_steps a) t) as [t1 [e1|]] eqn:E1; [discriminate|].
-  simpl in NH. apply orb_false_iff in NH. destruct NH as [NHa NHl].
-  simpl in ND. inversion ND as [|? ? Hnotin ND']; subst.
-  destruct Hin as [Ha|Hin].
-  - subst a.
-    rewrite (holds_lookup (st_fs t') (st_fs t1)).
-    + eapply sub_block_ok; eauto.
-    + eapply exec_frame; [apply subs_within | exact E | exact Hnotin].
-  - eapply IH; eauto.
+  intro H. apply orb_false_iff in H. destruct H as [H1 H2]. split.
+  - intros Ha Heq. subst a. simpl in H1. apply str_eqb_spec in Heq. congruence.
+  - intro Hin. apply mem_str_In in Hin. congruence.
 Qed.
 
-Lemma save_then_parse_lemma i f' :
-  classify i = 0%N -> save i = (f', None) -> reparse_ok i f' = true.
+Ltac fin_block :=
+  split; [reflexivity|]; split; [try rewrite_lookup; reflexivity|]; split; [|assumption];
+  split; [try rewrite_lookup; discriminate|]; split; assumption
+with rewrite_lookup :=
+  match goal with H : lookup _ _ = _ |- _ => rewrite H end.
+
+Lemma sub_block_fixed i x t t' :
+  exec i (sub_steps_fixed x) t = (t', None) ->
+  st_fs t' = st_fs t /\
+  st_pending t' = st_pending t ++ [(s_name x, text_of (st_fs t) x)] /\
+  sub_good i (st_fs t) x /\ ~ In (s_name x) (map fst (st_pending t)).
 Proof.
-  unfold classify. intros C E. pose proof (failed_false _ _ E) as F.
-  destruct (target_check_fails i) eqn:T.
-  { destruct (target_fail_save i T) as [e' H]. congruence. }
-  rewrite F in C. unfold reparse_ok.
-  destruct (i_multifile i) eqn:M; simpl in C.
-  - (* multi-file *)
-    destruct (validate_fails i) eqn:V.
-    { rewrite (validate_fail_save i T M V) in E. discriminate. }
-    destruct (existsb is_here (i_subs i)) eqn:NH; [discriminate|].
-    destruct (name_clash i) eqn:NC; [discriminate|].
-    unfold name_clash in NC. apply orb_false_iff in NC. destruct NC as [ND NM].
-    apply negb_false_iff in ND. apply nodup_str_NoDup in ND.
-    assert (NM' : ~ In (i_main i) (map s_name (i_subs i))).
-    { intro Hin. apply mem_str_In in Hin. congruence. }
-    pose proof (order_perm (i_subs i)) as P.
-    unfold save in E. rewrite (steps_multi i M), exec_app in E.
-    destruct (exec i (pre i) (init i)) as [t0 [e0|]] eqn:E0; [simpl in E; discriminate|].
-    rewrite exec_app in E.
-    destruct (exec i (flat_map sub_steps (order (i_subs i))) t0) as [t1 [e1|]] eqn:E1;
-      [simpl in E; discriminate|].
-    pose proof (pre_fs _ _ _ E0) as F0. unfold post in E.
-    crunch E. inversion E; subst f'. clear E.
-    apply andb_true_iff. split.
-    + simpl. apply holds_write.
-    + apply forallb_forall. intros x Hx.
-      assert (Hne : s_name x <> i_main i).
-      { intro Heq. apply NM'. rewrite <- Heq. apply in_map. exact Hx. }
-      rewrite (holds_lookup _ (st_fs t1)).
-      * eapply (subs_ok i (i_fs i) (order (i_subs i)) t0 t1); eauto.
-        -- eapply Permutation_NoDup; [|exact ND]. apply Permutation_map. apply Permutation_sym. exact P.
-        -- destruct (existsb is_here (order (i_subs i))) eqn:X; auto.
-           apply existsb_exists in X. destruct X as (y & Hy & Hh).
-           assert (existsb is_here (i_subs i) = true).
-           { apply existsb_exists. exists y. split; auto. eapply Permutation_in; eauto. }
-           congruence.
-        -- eapply Permutation_in; [apply Permutation_sym; exact P | exact Hx].
-      * simpl. rewrite !lookup_write_other; auto.
-  - (* single-file *)
-    unfold save, steps in E. rewrite M in E.
-    crunch E. inversion E; subst f'. simpl. apply holds_write.
+  unfold sub_steps_fixed, sub_good, text_of, expected. intro E.
+  destruct (s_src x) as [o|c| |c]; simpl in E;
+    (destruct (negb (i_dir_ok i) || is_dir (st_fs t) (s_name x)) eqn:P; [discriminate|]);
+    (destruct (negb (i_overwrite i) && is_file (st_fs t) (s_name x)) eqn:Q; [discriminate|]);
+    pose proof (checked_of _ _ _ P Q) as CK; simpl in E.
+  - destruct (call_hits i t); [discriminate|]. destruct o as [|c]; [discriminate|]. simpl in E.
+    destruct ((negb (i_alias i) && str_eqb (s_name x) (i_main i)) || mem_str (s_name x) (map fst (st_pending t))) eqn:R; [discriminate|].
+    apply stash_of in R. destruct R. inversion E; subst; simpl. fin_block.
+  - destruct ((negb (i_alias i) && str_eqb (s_name x) (i_main i)) || mem_str (s_name x) (map fst (st_pending t))) eqn:R; [discriminate|].
+    apply stash_of in R. destruct R. inversion E; subst; simpl. fin_block.
+  - destruct (lookup (st_fs t) (s_name x)) as [[c|]|] eqn:L; try discriminate. simpl in E.
+    destruct ((negb (i_alias i) && str_eqb (s_name x) (i_main i)) || mem_str (s_name x) (map fst (st_pending t))) eqn:R; [discriminate|].
+    apply stash_of in R. destruct R. inversion E; subst; simpl. fin_block.
+  - destruct c as [c|]; [|discriminate]. simpl in E.
+    destruct ((negb (i_alias i) && str_eqb (s_name x) (i_main i)) || mem_str (s_name x) (map fst (st_pending t))) eqn:R; [discriminate|].
+    apply stash_of in R. destruct R. inversion E; subst; simpl. fin_block.
 Qed.
 
-(* frame: whatever happens, only the target names can change *)
-Lemma steps_within i :
-  Forall (step_within (fun n => n = i_main i \/ (i_multifile i = true /\ In n (map s_name (i_subs i)))))
-         (steps i).
+Lemma NoDup_snoc {A} (l : list A) a : NoDup l -> ~ In a l -> NoDup (l ++ [a]).
 Proof.
-  unfold steps. destruct (i_multifile i).
-  - apply Forall_app. split; [repeat constructor|]. apply Forall_app. split.
-    + eapply Forall_impl; [|apply subs_within]. intros s. apply step_within_mono.
-      intros n Hn. right. split; auto.
-      apply in_map_iff in Hn. destruct Hn as (y & Hy & Hin). apply in_map_iff. exists y. split; auto.
-      eapply Permutation_in; [apply order_perm | exact Hin].
-    + repeat constructor; simpl; auto.
-  - repeat constructor; simpl; auto.
+  intros H1 H2. eapply Permutation_NoDup; [apply Permutation_cons_append|]. constructor; auto.
 Qed.
 
-Lemma save_frame_lemma i m :
-  m <> i_main i -> (i_multifile i = true -> ~ In m (map s_name (i_subs i))) ->
-  lookup (fst (save i)) m = lookup (i_fs i) m.
+Lemma subs_fixed i : forall l t t',
+  exec i (flat_map sub_steps_fixed l) t = (t', None) ->
+  st_fs t' = st_fs t /\
+  st_pending t' = st_pending t ++ plan (st_fs t) l /\
+  Forall (sub_good i (st_fs t)) l /\
+  (NoDup (map fst (st_pending t)) -> NoDup (map fst (st_pending t'))).
 Proof.
-  intros H1 H2. unfold save. simpl.
-  destruct (exec i (steps i) (init i)) as [t' e] eqn:E. simpl.
-  eapply (exec_frame i _ (steps i) (steps_within i) (init i) t' e m E).
-  intros [H|[H3 H4]]; [auto | apply (H2 H3 H4)].
+  induction l as [|x l IH]; intros t t' E; simpl in E.
+  - inversion E; subst. simpl. rewrite app_nil_r. auto.
+  - rewrite exec_app in E.
+    destruct (exec i (sub_steps_fixed x) t) as [t1 [e1|]] eqn:E1; [discriminate|].
+    destruct (sub_block_fixed _ _ _ _ E1) as (F1 & P1 & G1 & N1).
+    destruct (IH _ _ E) as (F2 & P2 & G2 & N2).
+    rewrite F1 in *. repeat split; auto.
+    + rewrite P2, P1, <- app_assoc. reflexivity.
+    + intro ND. apply N2. rewrite P1, map_app. simpl. apply NoDup_snoc; auto.
 Qed.
+
+(* success of the whole check phase, multi-file *)
+Lemma check_phase_multi_ok i t :
+  i_multifile i = true -> exec i (check_phase i) (init i) = (t, None) ->
+  exists cm, out_content (i_mainr i) = Some cm /\
+    st_pending t = plan (i_fs i) (order (i_subs i)) ++ [(i_main i, cm)] /\
+    checked i (i_fs i) (i_main i) /\
+    Forall (sub_good i (i_fs i)) (order (i_subs i)) /\
+    NoDup (map s_name (order (i_subs i))).
+Proof.
+  intros M E. unfold check_phase in E. rewrite M in E.
+  change ([SPathFc (i_main i); SCheckOverwrite (i_main i); SValidate] ++
+          flat_map sub_steps_fixed (order (i_subs i)) ++ [SDumpCall (i_mainr i); SStashMain (i_main i)])
+    with ([SPathFc (i_main i); SCheckOverwrite (i_main i); SValidate] ++
+          (flat_map sub_steps_fixed (order (i_subs i)) ++ [SDumpCall (i_mainr i); SStashMain (i_main i)])) in E.
+  rewrite exec_app in E.
+  destruct (exec i [SPathFc (i_main i); SCheckOverwrite (i_main i); SValidate] (init i)) as [t0 [e0|]] eqn:E0;
+    [discriminate|].
+  assert (T0 : t0 = init i /\ checked i (i_fs i) (i_main i)).
+  { simpl in E0.
+    destruct (negb (i_dir_ok i) || is_dir (i_fs i) (i_main i)) eqn:P; [discriminate|]. simpl in E0.
+    destruct (negb (i_overwrite i) && is_file (i_fs i) (i_main i)) eqn:Q; [discriminate|].
+    simpl in E0. destruct (negb (i_skipval i) && negb (i_valid i)); [discriminate|].
+    inversion E0. split; auto. apply checked_of; auto. }
+  destruct T0 as [-> CK].
+  rewrite exec_app in E.
+  destruct (exec i (flat_map sub_steps_fixed (order (i_subs i))) (init i)) as [t1 [e1|]] eqn:E1; [discriminate|].
+  destruct (subs_fixed _ _ _ _ E1) as (F1 & P1 & G1 & N1). simpl in F1, P1, G1, N1.
+  simpl in E. destruct (call_hits i t1); [discriminate|].
+  destruct (i_mainr i) as [|cm]; [discriminate|]. simpl in E. inversion E; subst t. simpl.
+  exists cm. split; [reflexivity|]. split; [rewrite P1; reflexivity|]. split; [exact CK|]. split; [exact G1|].
+  rewrite <- (plan_names (i_fs i)), <- P1. apply N1. constructor.
+Qed.
+
+(* success of the whole check phase, single-file *)
+Lemma check_phase_single_ok i t :
+  i_multifile i = false -> exec i (check_phase i) (init i) = (t, None) ->
+  exists c, out_content (i_full i) = Some c /\ st_pending t = [(i_main i, c)] /\ checked i (i_fs i) (i_main i).
+Proof.
+  intros M E. unfold check_phase in E. rewrite M in E. simpl in E.
+  destruct (negb (i_dir_ok i) || is_dir (i_fs i) (i_main i)) eqn:P; [discriminate|]. simpl in E.
+  destruct (negb (i_overwrite i) && is_file (i_fs i) (i_main i)) eqn:Q; [discriminate|].
+  simpl in E. destruct (negb (i_skipval i) && negb (i_valid i)); [discriminate|].
+  simpl in E. unfold call_hits in E. simpl in E.
+  destruct (match i_failcall i with Some k => Nat.eqb k 0 | None => false end); [discriminate|].
+  destruct (i_full i) as [|c]; [discriminate|]. simpl in E. inversion E; subst t. simpl.
+  exists c. split; [reflexivity|]. split; [reflexivity|]. apply (checked_of _ _ _ P Q).
+Qed.
+
+(* both modes together: what is pending after a successful check phase *)
+Record pending_ok (i : input) (p : list (name * content)) : Prop := {
+  po_nodup : alias_clash i = false -> NoDup (map fst p);
+  po_targets : forall n, In n (map fst p) <-> In n (targets i);
+  po_checked : forall n, In n (map fst p) -> checked i (i_fs i) n;
+  po_main : exists c, (if i_multifile i then out_content (i_mainr i) else out_content (i_full i)) = Some c
+                      /\ In (i_main i, c) p;
+  po_subs : i_multifile i = true ->
+            forall x, In x (i_subs i) -> exists c, expected (i_fs i) x = Some c /\ In (s_name x, c) p;
+  po_distinct : i_multifile i = true ->
+                NoDup (map s_name (i_subs i)) /\
+                (alias_clash i = false -> ~ In (i_main i) (map s_name (i_subs i))) }.
+
+Lemma pending_facts i t :
+  exec i (check_phase i) (init i) = (t, None) -> pending_ok i (st_pending t).
+Proof.
+  intro E. destruct (i_multifile i) eqn:M.
+  - destruct (check_phase_multi_ok i t M E) as (cm & Hm & P & CK & G & ND).
+    pose proof (order_perm (i_subs i)) as Perm.
+    assert (Pn : Permutation (map s_name (order (i_subs i))) (map s_name (i_subs i)))
+      by (apply Permutation_map; exact Perm).
+    assert (Hnames : map fst (st_pending t) = map s_name (order (i_subs i)) ++ [i_main i]).
+    { rewrite P, map_app, plan_names. reflexivity. }
+    assert (Hnotmain : alias_clash i = false -> ~ In (i_main i) (map s_name (order (i_subs i)))).
+    { unfold alias_clash. rewrite M. simpl. intros AC Hin.
+      destruct (i_alias i) eqn:A; simpl in AC.
+      - assert (Hin' : In (i_main i) (map s_name (i_subs i))) by (eapply Permutation_in; eauto).
+        apply mem_str_In in Hin'. congruence.
+      - apply in_map_iff in Hin. destruct Hin as (y & Hy & Hin).
+        rewrite Forall_forall in G. destruct (G y Hin) as (_ & _ & Hne). apply (Hne A). exact Hy. }
+    constructor.
+    + intro AC. rewrite Hnames. apply NoDup_snoc; auto.
+    + intro n. rewrite Hnames. unfold targets. rewrite M. rewrite in_app_iff. simpl. split.
+      * intros [H|[H|[]]]; [right; eapply Permutation_in; eauto | left; auto].
+      * intros [H|H]; [right; left; auto | left; eapply Permutation_in; [apply Permutation_sym|]; eauto].
+    + intro n. rewrite Hnames, in_app_iff. simpl. intros [H|[H|[]]].
+      * apply in_map_iff in H. destruct H as (y & Hy & Hin). subst n.
+        rewrite Forall_forall in G. destruct (G y Hin) as (_ & Hc & _). exact Hc.
+      * subst n. exact CK.
+    + rewrite M. exists cm. split; auto. rewrite P. apply in_or_app. right. left. reflexivity.
+    + intros _ x Hx. assert (Hin : In x (order (i_subs i))).
+      { eapply Permutation_in; [apply Permutation_sym; exact Perm | exact Hx]. }
+      rewrite Forall_forall in G. destruct (G x Hin) as (He & _ & _).
+      destruct (expected (i_fs i) x) as [c|] eqn:Ex; [|congruence].
+      exists c. split; auto. rewrite P. apply in_or_app. left. unfold plan.
+      apply in_map_iff. exists x. split; auto. unfold text_of. rewrite Ex. reflexivity.
+    + intros _. split.
+      * eapply Permutation_NoDup; [exact Pn | exact ND].
+      * intros AC Hin. apply (Hnotmain AC). eapply Permutation_in; [apply Permutation_sym; exact Pn | exact Hin].
+  - destruct (check_phase_single_ok i t M E) as (c & Hc & P & CK).
+    constructor; rewrite ?P; simpl; try (intro HH; rewrite M in HH; discriminate HH).
+    + intros _. repeat constructor. intros [].
+    + intro n. unfold targets. rewrite M. simpl. tauto.
+    + intros n [H|[]]. subst n. exact CK.
+    + rewrite ?M. exists c. split; [exact Hc | left; reflexivity].
+Qed.
+
+Lemma checked_absent i f n : i_overwrite i = false -> checked i f n -> lookup f n = None.
+Proof.
+  intros Ho (_ & Hd & Hf). specialize (Hf Ho). unfold is_dir, is_file in *.
+  destruct (lookup f n) as [[c|]|]; auto; discriminate.
+Qed.
+
+(* ---- the property statements, for save_fixed, for every input --------------------------------- *)
+(* only the targets can change, whatever the flags and the outcome *)
+Lemma fixed_frame_lemma i m :
+  ~ In m (targets i) -> lookup (fst (save_fixed i)) m = lookup (i_fs i) m.
+Proof.
+  intro H. rewrite save_fixed_unfold.
+  destruct (exec i (check_phase i) (init i)) as [t [e|]] eqn:E; simpl; auto.
+  apply flush_other. intro Hin. apply H. apply (po_targets _ _ (pending_facts i t E)). exact Hin.
+Qed.
+
+(* no silent overwrite: without overwrite=True every entry that existed (file or directory) is still
+   there, unchanged, whether the save succeeds or fails *)
+Lemma fixed_no_overwrite_lemma i :
+  i_overwrite i = false ->
+  forall n x, lookup (i_fs i) n = Some x -> lookup (fst (save_fixed i)) n = Some x.
+Proof.
+  intros Ho n x L. rewrite save_fixed_unfold.
+  destruct (exec i (check_phase i) (init i)) as [t [e|]] eqn:E; simpl; auto.
+  rewrite flush_other; auto. intro Hin.
+  pose proof (po_checked _ _ (pending_facts i t E) n Hin) as CK.
+  rewrite (checked_absent i _ n Ho CK) in L. discriminate.
+Qed.
+
+Lemma fixed_existing_target_refused_lemma i :
+  i_overwrite i = false -> i_dir_ok i = true -> is_file (i_fs i) (i_main i) = true ->
+  save_fixed i = (i_fs i, Some ERefuse).
+Proof.
+  intros Hov Hd Hf. pose proof (is_file_not_dir _ _ Hf) as Hnd.
+  rewrite save_fixed_unfold. unfold check_phase.
+  destruct (i_multifile i); simpl; rewrite Hd, Hnd; simpl; rewrite Hov, Hf; reflexivity.
+Qed.
+
+(* any target that cannot be written without destroying something makes the save fail as a whole *)
+Lemma fixed_unchecked_target_fails i n :
+  In n (targets i) -> ~ checked i (i_fs i) n -> exists e, save_fixed i = (i_fs i, Some e).
+Proof.
+  intros Hin Hn. rewrite save_fixed_unfold.
+  destruct (exec i (check_phase i) (init i)) as [t [e|]] eqn:E; [eexists; reflexivity|].
+  exfalso. apply Hn. pose proof (pending_facts i t E) as PO.
+  apply (po_checked _ _ PO). apply (po_targets _ _ PO). exact Hin.
+Qed.
+
+Lemma fixed_existing_subfile_refused_lemma i x :
+  i_multifile i = true -> i_overwrite i = false ->
+  In x (i_subs i) -> is_file (i_fs i) (s_name x) = true ->
+  exists e, save_fixed i = (i_fs i, Some e).
+Proof.
+  intros M Ho Hin Hf. apply (fixed_unchecked_target_fails i (s_name x)).
+  - unfold targets. rewrite M. right. apply in_map. exact Hin.
+  - intros (_ & _ & H). rewrite (H Ho) in Hf. discriminate.
+Qed.
+
+Lemma fixed_directory_in_the_way_lemma i n :
+  In n (targets i) -> is_dir (i_fs i) n = true -> exists e, save_fixed i = (i_fs i, Some e).
+Proof.
+  intros Hin Hd. apply (fixed_unchecked_target_fails i n Hin).
+  intros (_ & H & _). congruence.
+Qed.
+
+Lemma fixed_name_clash_refused_lemma i :
+  alias_clash i = false ->
+  i_multifile i = true -> name_clash i = true -> exists e, save_fixed i = (i_fs i, Some e).
+Proof.
+  intros AC M C. rewrite save_fixed_unfold.
+  destruct (exec i (check_phase i) (init i)) as [t [e|]] eqn:E; [eexists; reflexivity|].
+  exfalso. destruct (po_distinct _ _ (pending_facts i t E) M) as [ND NM].
+  unfold name_clash in C. apply orb_true_iff in C. destruct C as [C|C].
+  - apply nodup_str_NoDup in ND. rewrite ND in C. discriminate.
+  - apply mem_str_In in C. apply (NM AC). exact C.
+Qed.
+
+(* two SUB-files with one name are refused whatever the form of the target path *)
+Lemma fixed_subfile_clash_refused_lemma i :
+  i_multifile i = true -> nodup_str (map s_name (i_subs i)) = false -> exists e, save_fixed i = (i_fs i, Some e).
+Proof.
+  intros M C. rewrite save_fixed_unfold.
+  destruct (exec i (check_phase i) (init i)) as [t [e|]] eqn:E; [eexists; reflexivity|].
+  exfalso. destruct (po_distinct _ _ (pending_facts i t E) M) as [ND _].
+  apply nodup_str_NoDup in ND. congruence.
+Qed.
+
+(* a successful save can be read back *)
+Lemma holds_some f n c : lookup f n = Some (File c) -> holds f n (Some c) = true.
+Proof. unfold holds. intro H. rewrite H. apply N.eqb_refl. Qed.
+
+Lemma fixed_save_then_parse_lemma i f' :
+  alias_clash i = false -> save_fixed i = (f', None) -> reparse_ok i f' = true.
+Proof.
+  intro AC. rewrite save_fixed_unfold.
+  destruct (exec i (check_phase i) (init i)) as [t [e|]] eqn:E; intro H; inversion H; subst f'; clear H.
+  pose proof (pending_facts i t E) as PO. destruct PO as [ND _ _ (cm & Hcm & Hinm) Hsubs _].
+  specialize (ND AC).
+  unfold reparse_ok. destruct (i_multifile i) eqn:M.
+  - apply andb_true_iff. split.
+    + rewrite Hcm. apply holds_some. apply flush_in; auto.
+    + apply forallb_forall. intros x Hx. destruct (Hsubs eq_refl x Hx) as (c & Hc & Hin).
+      rewrite Hc. apply holds_some. apply flush_in; auto.
+  - rewrite Hcm. apply holds_some. apply flush_in; auto.
+Qed.
+
+(* success implies distinct targets, all creatable *)
+Lemma fixed_success_targets_lemma i f' :
+  save_fixed i = (f', None) ->
+  (forall n, In n (targets i) -> checked i (i_fs i) n) /\
+  (i_multifile i = true -> NoDup (map s_name (i_subs i)) /\
+                           (alias_clash i = false -> ~ In (i_main i) (map s_name (i_subs i)))).
+Proof.
+  rewrite save_fixed_unfold.
+  destruct (exec i (check_phase i) (init i)) as [t [e|]] eqn:E; intro H; inversion H; subst f'; clear H.
+  pose proof (pending_facts i t E) as PO. split.
+  - intros n Hn. apply (po_checked _ _ PO). apply (po_targets _ _ PO). exact Hn.
+  - apply (po_distinct _ _ PO).
+Qed.
+
+(* ---- the model meets Spec/SaveFSSpec.v ------------------------------------------------------- *)
+Lemma node_eqb_refl x : node_eqb x x = true.
+Proof. destruct x; simpl; auto. apply N.eqb_refl. Qed.
+
+Lemma agrees_on_eq a b n : lookup a n = lookup b n -> agrees_on a b n = true.
+Proof.
+  unfold agrees_on. intro H. rewrite H. destruct (lookup b n); simpl; auto. apply node_eqb_refl.
+Qed.
+
+Lemma fs_same_refl f : fs_same f f = true.
+Proof. unfold fs_same. apply forallb_forall. intros n _. apply agrees_on_eq. reflexivity. Qed.
+
+Lemma fixed_meets_spec_lemma i :
+  alias_clash i = false ->
+  spec_ok (i_overwrite i) (targets i) (i_fs i) (fst (save_fixed i)) (is_some (snd (save_fixed i)))
+          (reparse_ok i (fst (save_fixed i))) = true.
+Proof.
+  intro AC. destruct (save_fixed i) as [f' o] eqn:S. simpl. unfold spec_ok.
+  assert (Hframe : forall n, mem_str n (targets i) || agrees_on (i_fs i) f' n = true).
+  { intro n. destruct (mem_str n (targets i)) eqn:Mn; auto. simpl.
+    apply agrees_on_eq. symmetry.
+    replace f' with (fst (save_fixed i)) by (rewrite S; reflexivity).
+    apply fixed_frame_lemma. intro Hin. apply mem_str_In in Hin. congruence. }
+  repeat (apply andb_true_iff; split).
+  - destruct o as [e|]; simpl.
+    + rewrite (fixed_all_or_nothing_lemma i f' e S). apply fs_same_refl.
+    + apply fixed_save_then_parse_lemma; [exact AC | exact S].
+  - destruct (i_overwrite i) eqn:Ho; auto. apply forallb_forall. intros n Hn.
+    apply agrees_on_eq. apply lookup_in_names in Hn.
+    destruct (lookup (i_fs i) n) as [x|] eqn:L; [|congruence].
+    replace f' with (fst (save_fixed i)) by (rewrite S; reflexivity).
+    symmetry. apply fixed_no_overwrite_lemma; auto.
+  - apply forallb_forall. intros n _. apply Hframe.
+Qed.
+
+(* ---- the guard ------------------------------------------------------------------------------- *)
+Lemma alias_clash_no_alias i : i_alias i = false -> alias_clash i = false.
+Proof. unfold alias_clash. intro H. rewrite H. apply andb_false_iff. left. apply andb_false_r. Qed.
+
+Lemma classify_zero i : classify i = 0%N <-> alias_clash i = false.
+Proof. unfold classify. destruct (alias_clash i); split; intro H; auto; discriminate. Qed.
